@@ -52,6 +52,8 @@ PROFILES = {
     "reliable": dict(loss=0.15, dup=0.03, reorder=0.3, chan_params=[p_reliable], channels=4, close=False),
     "reliable-heavy-loss": dict(loss=0.4, dup=0.1, reorder=0.5, chan_params=[p_reliable], channels=3, close=False,
                                 sizes=[0, 1, 1200, 1201, 5000, 20000]),
+    "reorder-frag": dict(loss=0.05, dup=0.05, reorder=0.7, chan_params=[p_reliable], channels=2, close=False,
+                         sizes=[2500, 3000, 5000, 1201, 10], stash=0.08),
     "clean": dict(loss=0.0, dup=0.0, reorder=0.0, chan_params=[p_reliable], channels=3, close=False, fire=0.0),
     "mixed-pr": dict(loss=0.2, dup=0.03, reorder=0.3, chan_params=[p_reliable, p_rexmit, p_timed], channels=5, close=False,
                      sizes=[0, 1, 100, 1200, 1201, 5000, 20000]),
